@@ -82,6 +82,12 @@ def synth(rng, n, sit):
         if rng.random() < 0.3:
             fields.append(f"dv:f:0.{rng.randint(0, 999):03d}")
         rng.shuffle(fields)
+        if rng.random() < 0.2:
+            # a difference string next to the CIGAR (minimap2 / minigraph --cs): the same alignment at base level
+            cs = "".join({"=": f":{n_}", "X": "*ag" * n_, "I": "+" + "a" * n_, "D": "-" + "c" * n_}[o_]
+                         for n_, o_ in rgaf.cigar_ops(cg))
+            fields.append(f"cs:Z:{cs}")
+            sit["records_with_cs_tag"] += 1
         if tp in ("S", "I") and mapq > 0:
             sit["tpS_mapq_positive"] += 1
         if tp is None:
